@@ -73,7 +73,7 @@ pub fn run(rec: &mut Recorder, w: &mut World, tier: &str, seed: u64) {
         let fault = if rng.chance(1, 4) { "err".to_string() } else { format!("fail{}", k) };
         // (a store that already holds an unlinkable grouping rule is not used as the *previous* state: its links depend on
         //  the history that produced it, so "unchanged" has no stable meaning there)
-        let how = rng.below(5);
+        let how = rng.below(6);
         let (out, what) = match how {
             4 => { // the adapter delivers everything, but a delivered grouping rule cannot be linked: the load fails in the
                    // role-link rebuild, after the store was replaced
@@ -85,6 +85,22 @@ pub fn run(rec: &mut Recorder, w: &mut World, tier: &str, seed: u64) {
                 if before != after { rec.fail("failed-load-changed-state", format!("set_adapter failing in the role-link rebuild: {} became {}", before, after)); }
                 rec.count("load-fault:unlinkable-rule-in-new-store");
                 rec.nontrivial_case(&format!("2|unlinkable|{}", before));
+                continue;
+            }
+            5 => { // links are built by hand and lag behind the rules (a grouping rule added or removed since the last rebuild):
+                   // the failing load must leave that lag as it is - no link built, none dropped
+                rec.exec(w, "e.auto\tbuild\tfalse");
+                let g = if rng.chance(1, 2) { MOp::Add("g".into(), "g".into(), sv(&[*rng.pick(&["alice", "bob"]), *rng.pick(&["admin", "staff"])])) } else { MOp::Rm("g".into(), "g".into(), sv(&[*rng.pick(&["alice", "bob"]), *rng.pick(&["admin", "staff"])])) };
+                rec.exec(w, &g.line());
+                let b2 = full_state(rec, w, &m, &u);
+                rec.exec(w, &format!("e.fault\t{}", fault));
+                let out = if rng.chance(1, 2) { rec.exec(w, "e.load") } else { rec.exec(w, &format!("e.loadf\t{}\t{}", enc_list(&sv(&["alice"])), enc_list(&sv(&[""])))) };
+                rec.exec(w, "e.fault\t-");
+                let a2 = full_state(rec, w, &m, &u);
+                if !out.starts_with("err") { rec.fail("load-fault-not-reported", format!("load under adapter fault {} with link building off returned {}", fault, out)); }
+                if b2 != a2 { rec.fail("failed-load-changed-state", format!("load failing with {} while links are built by hand (after {}): {} became {}", fault, g.line().replace('\t', " "), b2, a2)); }
+                rec.count("load-fault:links-built-by-hand");
+                rec.nontrivial_case(&format!("2|manual|{}|{}", fault, b2));
                 continue;
             }
             0 => { rec.exec(w, &format!("e.fault\t{}", fault)); (rec.exec(w, "e.load"), "load_policy") }
@@ -142,7 +158,10 @@ pub fn run(rec: &mut Recorder, w: &mut World, tier: &str, seed: u64) {
                         if it % 5 == 4 { rec.exec(w, "e.clear"); edits.push("e.clear".into()); }
                     }
                     let in_memory = rec.exec(w, "e.pol");
-                    let must_fail = if refused_model { kind != "memory" } else { rec.exec(w, "e.fault\terr"); true };
+                    // the adapter's failure comes at its first, second or third call from now on (a save that is one call reaches
+                    // the first only; one split into several storage steps would fail in the middle)
+                    let plan = ["err", "pass,err", "pass,pass,err"][it % 3];
+                    let must_fail = if refused_model { kind != "memory" } else { rec.exec(w, &format!("e.fault\t{}", plan)); plan == "err" };
                     let out = rec.exec(w, "e.save");
                     rec.exec(w, "e.fault\t-");
                     let after_mem = rec.exec(w, "e.pol");
@@ -154,6 +173,10 @@ pub fn run(rec: &mut Recorder, w: &mut World, tier: &str, seed: u64) {
                         if after_mem != in_memory { rec.fail("failed-save-changed-state", format!("{}: in memory {} became {}", descr, in_memory, after_mem)); }
                         if lo != "ok" || reloaded != first { rec.fail("failed-save-damaged-store", format!("{}: the store held {} and after the failed save a load ({}) gives {}", descr, first, lo, reloaded)); }
                         rec.count(&format!("save-fault:{}:{}", kind, if refused_model { "model-refused" } else { "adapter-error" }));
+                    } else if out.starts_with("err") {
+                        // a failure later in the save: the store must still hold one complete policy, the old or the new
+                        if lo != "ok" || (reloaded != first && reloaded != in_memory) { rec.fail("failed-save-damaged-store", format!("{} [failure at a later adapter call: {}]: the store held {} , memory holds {} , and after the failed save a load ({}) gives {}", descr, plan, first, in_memory, lo, reloaded)); }
+                        rec.count(&format!("save-fault-late:{}", kind));
                     } else {
                         if out != "ok" || lo != "ok" || reloaded != in_memory { rec.fail("save-load-differs", format!("{}: saved {} ({}), loaded ({}) {}", descr, in_memory, out, lo, reloaded)); }
                         rec.count(&format!("save-ok:{}", kind));
